@@ -25,7 +25,7 @@ def hexOfString (s : String) : String := hexOut s.toUTF8.toList
 
 def hex8s (n : Nat) : String := String.ofList (hex8 n)
 
-def outcomeStr {α} (o : Outcome α) (f : α → String) : String :=
+private def outcomeStr {α} (o : Outcome α) (f : α → String) : String :=
   match o with
   | .ok a => f a
   | .err _ => "err"
